@@ -1029,6 +1029,203 @@ def gen_grid(ctx, rng):
     return cases
 
 
+# ---------------------------------------------------------------------------------------------------------------------
+# several databases in one db_session: module-level commit() / rollback() over all session caches
+# ---------------------------------------------------------------------------------------------------------------------
+NDB = 3
+
+
+class RealMulti(object):
+    """NDB file databases, each behind its own tracing connection factory; faults per database: the flush (first INSERT),
+    the connection commit, the connection rollback"""
+    def __init__(self):
+        self.dir = ponyutil.workdir('c18m')
+        self.dbs = []; self.trs = []; self.E = []; self.paths = []
+        self.faults = {'flush': set(), 'commit': set(), 'rollback': set()}
+        for i in range(NDB):
+            tr = Tracer(); db = Database(); path = os.path.join(self.dir, 'd%d.sqlite' % i)
+            @db.on_connect(provider='sqlite')
+            def fast(db, connection): connection.execute('PRAGMA synchronous = OFF')
+            db.bind('sqlite', path, create_db=True, **tr.bind_kwargs())
+            class E(db.Entity):
+                tag = Required(int)
+            db.generate_mapping(create_tables=True)
+            tr.before_call.append(self._hook(i))
+            self.dbs.append(db); self.trs.append(tr); self.E.append(E); self.paths.append(path)
+
+    def _hook(self, i):
+        def hook(ev):
+            if ev['call'] == 'execute' and ev['kind'] == 'insert' and i in self.faults['flush']:
+                raise sqlite3.OperationalError('injected flush fault db%d' % i)
+            if ev['call'] == 'commit' and i in self.faults['commit']:
+                raise sqlite3.OperationalError('injected commit fault db%d' % i)
+            if ev['call'] == 'rollback' and i in self.faults['rollback']:
+                raise sqlite3.OperationalError('injected rollback fault db%d' % i)
+        return hook
+
+    def rows(self, i):
+        con = sqlite3.connect(self.paths[i])
+        try: return sorted(r[0] for r in con.execute('select tag from E'))
+        finally: con.close()
+
+    def force_clean(self):
+        self.faults = {'flush': set(), 'commit': set(), 'rollback': set()}
+        core.local.db_context_counter = 0; core.local.db_session = None
+        for cache in list(core.local.db2cache.values()):
+            try: cache.rollback()
+            except BaseException: pass
+        core.local.db2cache.clear()
+        for db in self.dbs:
+            prov = db.provider
+            con = getattr(prov.pool, 'con', None)
+            if con is not None:
+                try: sqlite3.Connection.rollback(con)
+                except BaseException: pass
+            if prov.transaction_lock.locked():
+                try: prov.transaction_lock.release()
+                except BaseException: pass
+
+    def reset(self):
+        self.force_clean()
+        for i, db in enumerate(self.dbs):
+            db.priority = 0
+            with db_session: db.execute('delete from E')
+
+    def close(self):
+        self.force_clean()
+        for db in self.dbs:
+            try: db.disconnect()
+            except Exception: pass
+        ponyutil.rmtree(self.dir)
+
+    def execute(self, case):
+        self.reset()
+        for d, pr in case.get('priority', {}).items(): self.dbs[int(d)].priority = pr
+        self.faults = {k: set(v) for k, v in case['faults'].items()}
+        session = db_session(allowed_exceptions=[U2]) if case['form'] == 'cm' else None
+        def body():
+            for d, ws in case['touch']:
+                if ws:
+                    for w in ws: self.E[d](tag=w)
+                else: select(x for x in self.E[d])[:]            # the session only reads this database
+            if case['out'] != 'ret': raise make_exc(case['out'])
+        out = 'ret'
+        try:
+            with watchdog(20):
+                if session is not None:
+                    with session: body()
+                else:
+                    db_session(allowed_exceptions=[U2], retry_exceptions=[])(body)()
+        except CommitException: out = 'commitExc'
+        except core.PartialCommitException: out = 'partialCommit'
+        except core.RollbackException: out = 'rollbackExc'
+        except core.OperationalError as e:
+            out = 'flushErr' if 'injected flush fault' in str(e) else 'releaseErr' if 'injected rollback fault' in str(e) else 'other:OperationalError:%s' % e
+        except BaseException as e: out = canon_exc(e)
+        obs = {'out': out, 'rows': [self.rows(i) for i in range(NDB)],
+               'leaked_caches': len(core.local.db2cache), 'counter': core.local.db_context_counter,
+               'session': core.local.db_session is not None,
+               'locks': [db.provider.transaction_lock.locked() for db in self.dbs]}
+        # what the thread is like for the NEXT session: an ordinary session over every database must simply work
+        self.faults = {'flush': set(), 'commit': set(), 'rollback': set()}
+        nxt = 'ok'
+        try:
+            with watchdog(10):
+                with db_session(strict=True):
+                    for i in range(NDB): select(x for x in self.E[i])[:]
+        except BaseException as e: nxt = '%s' % type(e).__name__
+        obs['next_session'] = nxt
+        obs['rows_after_next'] = [self.rows(i) for i in range(NDB)]
+        return obs
+
+
+def multi_cases(ctx, rng):
+    """touch 1-3 databases in every order, written or only read, every outcome, faults on flush / commit / rollback of
+    every subset of one or two databases, optional priority, context manager and decorator form"""
+    cases = []
+    orders = [list(p) for n in (1, 2, 3) for p in itertools.permutations(range(NDB), n)]
+    fault_sets = [{'flush': [], 'commit': [], 'rollback': []}]
+    for kind in ('flush', 'commit', 'rollback'):
+        for d in range(NDB):
+            f = {'flush': [], 'commit': [], 'rollback': []}; f[kind] = [d]; fault_sets.append(f)
+    for a in range(NDB):
+        for b in range(NDB):
+            fault_sets.append({'flush': [], 'commit': [a], 'rollback': [b]})
+            if a < b: fault_sets.append({'flush': [], 'commit': [a, b], 'rollback': []})
+    combos = list(itertools.product(orders, fault_sets, ['ret', 'ret', 'u0', 'u2']))
+    if not ctx.thorough: combos = rng.sample(combos, 260)
+    for order, f, out in combos:
+        touch = []
+        for j, d in enumerate(order):
+            ws = [100 * (d + 1) + k for k in range(rng.choice([1, 1, 2]))] if rng.random() < 0.8 else []
+            touch.append([d, ws])
+        pr = {}
+        if rng.random() < 0.25: pr = {str(rng.choice(order)): rng.choice([1, 5])}
+        form = 'cm' if (f['rollback'] or rng.random() < 0.6) else 'decorator'
+        cases.append({'touch': touch, 'faults': f, 'out': out, 'priority': pr, 'form': form})
+    return cases
+
+
+WITNESS_PARTIAL = {'touch': [[0, [10]], [1, [11]]], 'faults': {'flush': [], 'commit': [0], 'rollback': []}, 'out': 'ret',
+                   'priority': {}, 'form': 'cm'}       # Props/C18.lean: witnessCaches / witnessFaults
+
+
+def run_multi(ctx, rng):
+    real = RealMulti()
+    try:
+        cases = [WITNESS_PARTIAL] + multi_cases(ctx, rng)
+        reqs = [{'op': 'multi', 'caches': [{'db': d, 'priority': c['priority'].get(str(d), 0), 'pending': ws} for d, ws in c['touch']],
+                 'faults': c['faults'], 'can_commit': c['out'] in ('ret', 'u2')} for c in cases]
+        outs = ctx.driver('C18', reqs) if ctx.driver.ok else [None] * len(cases)
+        pend = Pending(ctx)
+        for case, mod in zip(cases, outs):
+            obs = real.execute(case)
+            ctx.case(case, kind='multi-db')
+            ctx.count('multi-out:' + obs['out'].split(':')[0])
+            written = {d: ws for d, ws in case['touch']}
+            inp = dict(case)
+            # ---- tie
+            if mod is not None:
+                if 'driver_error' in mod: ctx.divergence('driver error', case, model=mod); continue
+                err = mod['err']
+                m_out = (list(err)[0] if isinstance(err, dict) else err) if err is not None else case['out']
+                m_rows = [[] for _ in range(NDB)]
+                for dbs in mod['dbs']: m_rows[dbs['db']] = sorted(dbs['committed'])
+                if m_out != obs['out'] or m_rows != obs['rows']:
+                    ctx.divergence('model and real multi-database session disagree', case, model={'out': m_out, 'rows': m_rows, 'order': mod['order']},
+                                   impl={'out': obs['out'], 'rows': obs['rows']})
+            # ---- oracle: the statement of C18 on what the real code did
+            any_rows = any(obs['rows'])
+            ok_body = case['out'] in ('ret', 'u2')
+            if not ok_body and any_rows:
+                pend.violation('the body raised %s, which is not allowed, but rows %s were committed' % (case['out'], obs['rows']), inp,
+                               observed=obs, key='C18:multi-db:commit-after-failure')
+            if ok_body and obs['out'] in ('commitExc', 'partialCommit', 'flushErr') and any_rows:
+                pend.violation('the session ended with %s but the databases hold %s: part of the session was committed '
+                               '(no two-phase commit over several databases)' % (obs['out'], obs['rows']), inp, observed=obs,
+                               expected='nothing committed', key='C18:multi-db:partial-commit')
+            if ok_body and obs['out'] in (case['out'], 'releaseErr') and obs['rows'] != [sorted(written.get(d, [])) for d in range(NDB)]:
+                pend.violation('the session ended normally but the databases hold %s' % obs['rows'], inp, observed=obs,
+                               key='C18:multi-db:no-commit-after-success')
+            for d in range(NDB):
+                if obs['rows'][d] and obs['rows'][d] != sorted(written.get(d, [])):
+                    pend.violation('database %d holds %s: only part of the writes %s of the session' % (d, obs['rows'][d], written.get(d)),
+                                   inp, observed=obs, key='C18:multi-db:torn-database')
+            if obs['leaked_caches'] or obs['counter'] or obs['session'] or any(obs['locks']):
+                pend.violation('after the outermost exit the thread still has session state (caches=%s, counter=%s, db_session set=%s, locks held=%s)'
+                               % (obs['leaked_caches'], obs['counter'], obs['session'], obs['locks']), inp, observed=obs,
+                               key='C18:multi-db:leak')
+            if obs['next_session'] != 'ok':
+                pend.violation('an ordinary db_session entered afterwards on the same thread fails with %s' % obs['next_session'], inp,
+                               observed=obs, key='C18:multi-db:next-session-fails')
+            if obs['rows_after_next'] != obs['rows']:
+                pend.violation('a read-only db_session entered afterwards changed the databases from %s to %s' % (obs['rows'], obs['rows_after_next']),
+                               inp, observed=obs, key='C18:multi-db:leak-committed-later')
+        pend.flush()
+    finally:
+        real.close()
+
+
 def setup_globals():
     global REDIRECT
     REDIRECT = [x for x in UNIVERSE if bottle_plugin.is_allowed_exception(make_exc(x))]
@@ -1067,6 +1264,7 @@ def run_all(ctx, real):
         reset_link_pool(rng)
         cases.append({'prog': rand_prog(rng, rng.choice([1, 2, 2, 3, 3, 4])), 'env': rand_env(rng, 0.3)})
     run_cases(ctx, real, cases, 'random')
+    run_multi(ctx, rng)
     for k, v in sorted(FEATURES.items()): ctx.count(k, v)
     ctx.extra['exception_universe'] = UNIVERSE
     ctx.extra['bottle_allowed'] = REDIRECT
